@@ -155,3 +155,62 @@ Proof. vm_compute. reflexivity. Qed.
 (* the one summary of foreign code the analysis itself relies on *)
 Theorem analysis_assumptions : assumed_fresh = ["os/exec.Command"; "os/exec.CommandContext"].
 Proof. vm_compute. reflexivity. Qed.
+
+(* ---------- where Go's map iteration order could leak into the result of ParseProgram ------- *)
+
+(* Every `for ... range <map>` of the front-end packages (parser, lexer, internal/ast,
+   internal/resolver, internal/compiler) with the COMPLETE text of the statement, and every
+   caller of IterVars/IterFuncs, each with the reason why the order of iteration cannot be
+   observed.  A new range over a map, or an edit of the body of a listed one (the seeded
+   `pos.Line <= min.Line && pos.Column < min.Column` in checkMultiExprs is one), changes the
+   generated table and breaks the equality below until the site is re-classified. *)
+Definition site5 := (string * string * string * Z * string)%type.
+Definition classified_map_ranges : list (site5 * string) :=
+  [(("internal/resolver", "resolve.go", "*ResolvedProgram.IterFuncs", 1%Z, "for name, info := range r.resolver.funcInfo { f(name, info) }"),
+    "IterFuncs: hands the entries to a callback in map order; its callers are classified in iter_callers");
+   (("internal/resolver", "resolve.go", "*ResolvedProgram.IterVars", 1%Z, "for name, info := range r.resolver.varInfo[funcName] { f(name, info) }"),
+    "IterVars: the same");
+   (("internal/resolver", "resolve.go", "Resolve", 1%Z, "for name := range config.Funcs { nativeNames = append(nativeNames, name) }"),
+    "collects the names of the Go functions into a slice that is sorted before use");
+   (("internal/resolver", "resolve.go", "Resolve", 2%Z, "for name := range callGraph.funcs { if _, ok := called[name]; !ok { uncalled = append(uncalled, name) } }"),
+    "collects the functions topoSort did not reach into a slice that is sorted before it is appended (repair of F-C19-1)");
+   (("internal/resolver", "resolve.go", "Resolve", 3%Z, "for funcName, info := range funcInfo { if info.Native { continue } varInfo[funcName] = make(map[string]VarInfo) for _, param := range info.Params { varInfo[funcName][param] = VarInfo{} } }"),
+    "creates one table per AWK function: each iteration writes only its own key");
+   (("internal/resolver", "resolve.go", "Resolve", 4%Z, "for _, infos := range r.varInfo { for varName, info := range infos { if info.Type == unknown { infos[varName] = VarInfo{Type: Scalar, Index: info.Index} } } }"),
+    "defaulting unknown to scalar: each iteration rewrites only its own entry");
+   (("internal/resolver", "resolve.go", "Resolve", 5%Z, "for varName, info := range infos { if info.Type == unknown { infos[varName] = VarInfo{Type: Scalar, Index: info.Index} } }"),
+    "(inner loop of the previous site) the same");
+   (("internal/resolver", "resolve.go", "Resolve", 6%Z, "for funcName, infos := range r.varInfo { var names []string if funcName == """" { for name := range infos { names = append(names, name) } sort.Strings(names) } else { names = r.funcInfo[funcName].Params } scalar := 0 array := 0 for _, name := range names { info := infos[name] if info.Type == Array { infos[name] = VarInfo{Type: info.Type, Index: array} array++ } else { infos[name] = VarInfo{Type: info.Type, Index: scalar} scalar++ } } }"),
+    "index assignment: per function, from the sorted names (globals) or the parameter list (locals); iterations are independent");
+   (("internal/resolver", "resolve.go", "Resolve", 7%Z, "for name := range infos { names = append(names, name) }"),
+    "(inner loop of the previous site) collects the global names into a slice that is sorted before use");
+   (("internal/resolver", "resolve.go", "printVarTypes", 1%Z, "for funcName := range varInfo { funcNames = append(funcNames, funcName) }"),
+    "printVarTypes: collects the function names into a slice that is sorted before use");
+   (("internal/resolver", "resolve.go", "printVarTypes", 2%Z, "for name := range varInfo[funcName] { varNames = append(varNames, name) }"),
+    "printVarTypes: collects the variable names into a slice that is sorted before use");
+   (("internal/resolver", "toposort.go", "topoSort", 1%Z, "for node := range graph { nodes = append(nodes, node) }"),
+    "topoSort: collects the nodes into a slice that is sorted before use (repair of F-C19-1/2)");
+   (("internal/resolver", "toposort.go", "topoSort", 2%Z, "for m := range graph[n] { successors = append(successors, m) }"),
+    "topoSort: collects the successors into a slice that is sorted before use (repair of F-C19-1/2)");
+   (("parser", "parser.go", "*parser.checkMultiExprs", 1%Z, "for _, pos := range p.multiExprs { if pos.Line < min.Line || pos.Line == min.Line && pos.Column < min.Column { min = pos } }"),
+    "checkMultiExprs: minimum of the positions under the lexicographic order (line, column): a total order, so the minimum does not depend on the order of the scan")].
+
+Definition classified_iter_callers : list (site5 * string) :=
+  [(("internal/compiler", "compiler.go", "Compile", 1%Z, "resolved.IterVars("""", func(name string, info resolver.VarInfo) { if info.Type == resolver.Array { for len(p.arrayNames) <= info.Index { p.arrayNames = append(p.arrayNames, """") } p.arrayNames[info.Index] = name } else { for len(p.scalarNames) <= info.Index { p.scalarNames = append(p.scalarNames, """") } p.scalarNames[info.Index] = name } })"),
+    "fills arrayNames/scalarNames at info.Index: global indexes are distinct within each kind, so the writes commute");
+   (("internal/compiler", "compiler.go", "Compile", 2%Z, "resolved.IterFuncs(func(name string, info resolver.FuncInfo) { if !info.Native { return } for len(p.nativeFuncNames) <= info.Index { p.nativeFuncNames = append(p.nativeFuncNames, """") } p.nativeFuncNames[info.Index] = name })"),
+    "fills nativeFuncNames at info.Index for NATIVE functions only (repair of F-C19-3): native indexes are distinct, so the writes commute");
+   (("interp", "interp.go", "newInterp", 1%Z, "program.IterVars("""", func(name string, info resolver.VarInfo) { if info.Type == resolver.Array { p.arrayIndexes[name] = info.Index } else { p.scalarIndexes[name] = info.Index } })"),
+    "fills the name -> index maps of the interpreter: one key per entry, so the writes commute")].
+
+Definition site5_eqb (a b : site5) : bool :=
+  match a, b with
+  | (p, f, fn, o, t), (p', f', fn', o', t') =>
+      String.eqb p p' && String.eqb f f' && String.eqb fn fn' && Z.eqb o o' && String.eqb t t'
+  end.
+
+Theorem map_ranges_classified : list_eqb site5_eqb map_ranges (map fst classified_map_ranges) = true.
+Proof. vm_compute. reflexivity. Qed.
+
+Theorem iter_callers_classified : list_eqb site5_eqb iter_callers (map fst classified_iter_callers) = true.
+Proof. vm_compute. reflexivity. Qed.
